@@ -24,6 +24,7 @@ def OpAssign(name, op, e): return nd("opassign", s=name, s2=op, kids=[e])
 def Call(f, args): return nd("call", kids=[f] + list(args))
 def Invoke(obj, name, args): return nd("invoke", s=name, kids=[obj] + list(args))
 def SuperInvoke(name, args): return nd("superinvoke", s=name, kids=list(args))
+def SuperGet(name): return nd("superget", s=name)          # super.name as a value (a method bound to self)
 def Prop(obj, name): return nd("prop", s=name, kids=[obj])
 def PropSet(obj, name, v): return nd("propset", s=name, kids=[obj, v])
 def PropOp(obj, name, op, v): return nd("propop", s=name, s2=op, kids=[obj, v])
@@ -160,7 +161,7 @@ class Printer:
 
     # expressions return text; statements emit lines
     def atom_like(self, n):
-        return n["k"] in ("nil", "true", "false", "num", "str", "var", "self", "call", "invoke", "superinvoke", "prop",
+        return n["k"] in ("nil", "true", "false", "num", "str", "var", "self", "call", "invoke", "superinvoke", "superget", "prop",
                           "index", "list", "interp", "tuple", "map") and not (n["k"] == "num" and n["n"] < 0)
 
     def sub(self, n, parent_prec=0, right=False):
@@ -217,6 +218,7 @@ class Printer:
             if k == "prop": return f"@{n['s']}"
             if k == "propset": return f"@{n['s']} = {self.expr(n['kids'][1])}"
             return f"@{n['s']} {n['s2']} {self.expr(n['kids'][1])}"
+        if k == "superget": return f"super.{n['s']}"
         if k == "prop": return f"{self.callee(n['kids'][0])}.{n['s']}"
         if k == "propset": return f"{self.callee(n['kids'][0])}.{n['s']} = {self.expr(n['kids'][1])}"
         if k == "propop": return f"{self.callee(n['kids'][0])}.{n['s']} {n['s2']} {self.expr(n['kids'][1])}"
